@@ -30,6 +30,7 @@ type c06Case struct {
 	OffsetMs   int64 // client clock - server clock
 	NumConn    int   `json:",omitempty"` // connections of the session, handshaking at the same time (0 = 1)
 	Managed    bool  `json:",omitempty"` // the user is in the user database (authorisation takes a while) instead of the bypass list
+	Others     int   `json:",omitempty"` // other clients (own UIDs, own session ids) whose handshakes run at the same time
 }
 
 var c06EncByte = map[string]byte{"plain": 0, "aes-256-gcm": 1, "aes-gcm": 1, "chacha20-poly1305": 2, "aes-128-gcm": 3}
@@ -54,13 +55,21 @@ func c06Inner(c c06Case) (vk.Result, error) {
 	raw := cfg.raw([32]byte{})
 	uid := raw.UID
 	opts := vSrvOpts{Bypass: [][]byte{uid}, Methods: []string{c.Method}, Tap: true, AutoNet: true}
+	var otherUIDs [][]byte
+	for j := 0; j < c.Others; j++ {
+		o := append([]byte(nil), uid...)
+		o[0] ^= byte(j + 1)
+		o[7] ^= 0x55
+		otherUIDs = append(otherUIDs, o)
+		opts.Bypass = append(opts.Bypass, o)
+	}
 	if c.Managed {
 		mgr := newFakeManager()
 		var a [16]byte
 		copy(a[:], uid)
 		mgr.users[a] = &vFakeUser{UpRate: 1 << 40, DownRate: 1 << 40, UpCredit: 1 << 40, DownCredit: 1 << 40, Expiry: time.Now().Unix() + 1<<20, Cap: 10}
 		mgr.authYield = 500
-		opts.Bypass, opts.Manager = nil, mgr
+		opts.Bypass, opts.Manager = otherUIDs, mgr
 	}
 	srv := newVSrv(opts)
 	defer srv.stop()
@@ -88,6 +97,28 @@ func c06Inner(c c06Case) (vk.Result, error) {
 	type hs struct {
 		key [32]byte
 		err error
+	}
+	// the other clients: one connection each, started in the same step as the connections of the client under test
+	otherCh := make([]chan hs, len(otherUIDs))
+	for j, o := range otherUIDs {
+		ocfg := cfg
+		ocfg.UID = vUIDb64(o)
+		_, oremote, oauth, err := vMustProcess(ocfg, srv.pub, clientNow)
+		if err != nil {
+			return res, fmt.Errorf("harness: %v", err)
+		}
+		oauth.SessionId = c.SessionID + uint32(j) + 1
+		otr := oremote.Transport.CreateTransport()
+		ocn, err := dialer.Dial("tcp", oremote.RemoteAddr)
+		if err != nil {
+			return res, fmt.Errorf("harness: dial: %v", err)
+		}
+		och := make(chan hs, 1)
+		otherCh[j] = och
+		go func() {
+			k, err := otr.Handshake(ocn, oauth)
+			och <- hs{k, err}
+		}()
 	}
 	var conn net.Conn
 	chs := make([]chan hs, nconn)
@@ -128,6 +159,32 @@ func c06Inner(c c06Case) (vk.Result, error) {
 			return res, vk.ViolateSig("key-mismatch", "connections 0 and %d of one session (same UID and session id, handshaking at the same time) were given different session keys", i)
 		}
 	}
+	// the other clients: each must have its own user record with exactly its session, holding its key
+	for j, och := range otherCh {
+		var ho hs
+		select {
+		case ho = <-och:
+		default:
+			return res, vk.Violatef("handshake of another correctly configured client (running at the same time) did not complete")
+		}
+		if ho.err != nil {
+			return res, vk.Violatef("handshake of another correctly configured client (running at the same time) failed: %v", ho.err)
+		}
+		var oa [16]byte
+		copy(oa[:], otherUIDs[j])
+		srv.sta.Panel.activeUsersM.RLock()
+		ou := srv.sta.Panel.activeUsers[oa]
+		srv.sta.Panel.activeUsersM.RUnlock()
+		if ou == nil {
+			return res, vk.ViolateSig("identity-mismatch", "the server has no active user for UID %x although that client's handshake completed (%d clients connected at the same time): its session was filed under another identity", otherUIDs[j], len(otherUIDs)+1)
+		}
+		ou.sessionsM.RLock()
+		os := ou.sessions[c.SessionID+uint32(j)+1]
+		ou.sessionsM.RUnlock()
+		if os == nil || os.GetSessionKey() != ho.key {
+			return res, vk.ViolateSig("identity-mismatch", "the server's session for UID %x / session id %d is missing or holds another key than the client (%d clients connected at the same time)", otherUIDs[j], c.SessionID+uint32(j)+1, len(otherUIDs)+1)
+		}
+	}
 	// server side view
 	srv.sta.Panel.activeUsersM.RLock()
 	var arr [16]byte
@@ -135,7 +192,7 @@ func c06Inner(c c06Case) (vk.Result, error) {
 	user := srv.sta.Panel.activeUsers[arr]
 	srv.sta.Panel.activeUsersM.RUnlock()
 	if user == nil {
-		return res, vk.Violatef("server has no active user for the configured UID after a completed handshake")
+		return res, vk.ViolateSig("identity-mismatch", "server has no active user for the configured UID after a completed handshake (%d other clients connected at the same time)", len(otherUIDs))
 	}
 	user.sessionsM.RLock()
 	sesh := user.sessions[c.SessionID]
@@ -153,41 +210,60 @@ func c06Inner(c c06Case) (vk.Result, error) {
 	if sesh.Unordered != c.UDP {
 		return res, vk.Violatef("server session ordered/unordered flag is %v, client configured %v", sesh.Unordered, c.UDP)
 	}
-	// independent decode of the tapped first packet
-	var first []byte
-	var transport Transport
+	// independent decode of every tapped first packet: the identities recovered must be exactly (as a multiset) the
+	// configured ones - the client under test once per connection, every other client once
+	var firsts [][]byte
+	var transport Transport = TLS{}
 	if cdn != nil {
-		cdn.mu.Lock()
-		if len(cdn.Backs) == 0 {
-			cdn.mu.Unlock()
-			return res, fmt.Errorf("harness: no CDN back link")
-		}
-		wire := cdn.Backs[0].Wire(vk.AtoB)
-		cdn.mu.Unlock()
-		i := bytes.Index(wire, []byte("\r\n\r\n"))
-		if i < 0 {
-			return res, vk.Violatef("CDN first packet is not a complete HTTP request")
-		}
-		first = wire[:i+4]
 		transport = WebSocket{}
-	} else {
-		wire := conn.(*vk.End).Link().Wire(vk.AtoB)
-		recs, _ := vk.SplitTLSRecords(wire)
-		if len(recs) == 0 {
-			return res, vk.Violatef("no TLS record in the client's first flight")
+		cdn.mu.Lock()
+		backs := append([]*vk.Link(nil), cdn.Backs...)
+		cdn.mu.Unlock()
+		for _, bl := range backs {
+			wire := bl.Wire(vk.AtoB)
+			i := bytes.Index(wire, []byte("\r\n\r\n"))
+			if i < 0 {
+				return res, vk.Violatef("CDN first packet is not a complete HTTP request")
+			}
+			firsts = append(firsts, wire[:i+4])
 		}
-		first = wire[:5+len(recs[0].Body)]
-		transport = TLS{}
+	} else {
+		for _, l := range srv.net.All() {
+			wire := l.Wire(vk.AtoB)
+			if len(wire) == 0 {
+				continue
+			}
+			recs, _ := vk.SplitTLSRecords(wire)
+			if len(recs) == 0 {
+				return res, vk.Violatef("no TLS record in a client's first flight")
+			}
+			firsts = append(firsts, wire[:5+len(recs[0].Body)])
+		}
+	}
+	_ = conn
+	wantIDs := map[string]int{}
+	idOf := func(u []byte, sid uint32) string {
+		return fmt.Sprintf("UID=%x method=%q enc=%d sid=%d unordered=%v", u, c.Method, c06EncByte[strings.ToLower(c.Enc)], sid, c.UDP)
+	}
+	wantIDs[idOf(uid, c.SessionID)] = nconn
+	for j, o := range otherUIDs {
+		wantIDs[idOf(o, c.SessionID+uint32(j)+1)]++
+	}
+	if len(firsts) != nconn+len(otherUIDs) {
+		return res, fmt.Errorf("harness: tapped %d first packets, expected %d", len(firsts), nconn+len(otherUIDs))
 	}
 	pv := srv.pv
 	sta2 := &State{StaticPv: &pv, UsedRandom: map[[32]byte]int64{}, WorldState: common.WorldState{Rand: rand.Reader, Now: func() time.Time { return t0 }}}
-	ci, _, aerr := AuthFirstPacket(first, transport, sta2)
-	if aerr != nil {
-		return res, vk.Violatef("the client's first packet does not authenticate on an independent server state: %v", aerr)
-	}
-	if !bytes.Equal(ci.UID, uid) || ci.ProxyMethod != c.Method || ci.EncryptionMethod != c06EncByte[strings.ToLower(c.Enc)] || ci.SessionId != c.SessionID || ci.Unordered != c.UDP {
-		return res, vk.ViolateSig("identity-mismatch", "server recovers UID=%x method=%q enc=%d sid=%d unordered=%v; client was configured with UID=%x method=%q enc=%d sid=%d unordered=%v",
-			ci.UID, ci.ProxyMethod, ci.EncryptionMethod, ci.SessionId, ci.Unordered, uid, c.Method, c06EncByte[strings.ToLower(c.Enc)], c.SessionID, c.UDP)
+	for _, first := range firsts {
+		ci, _, aerr := AuthFirstPacket(first, transport, sta2)
+		if aerr != nil {
+			return res, vk.Violatef("a client's first packet does not authenticate on an independent server state: %v", aerr)
+		}
+		got := fmt.Sprintf("UID=%x method=%q enc=%d sid=%d unordered=%v", ci.UID, ci.ProxyMethod, ci.EncryptionMethod, ci.SessionId, ci.Unordered)
+		if wantIDs[got] == 0 {
+			return res, vk.ViolateSig("identity-mismatch", "server recovers %s from a first packet; no client was configured like that (or not that often); the client under test: %s", got, idOf(uid, c.SessionID))
+		}
+		wantIDs[got]--
 	}
 	sidClass := "sid=random"
 	switch c.SessionID {
@@ -208,7 +284,10 @@ func c06Inner(c c06Case) (vk.Result, error) {
 	if c.Managed {
 		res.Labels = append(res.Labels, "managed-user")
 	}
-	if len(first) > 1500 {
+	if c.Others > 0 {
+		res.Labels = append(res.Labels, "other-clients-at-the-same-time")
+	}
+	if len(firsts) > 0 && len(firsts[0]) > 1500 {
 		res.Labels = append(res.Labels, "first-packet>1500")
 	}
 	_ = client.MakeSession
@@ -228,6 +307,7 @@ func c06Gen(rt *rapid.T) c06Case {
 	c.OffsetMs = rapid.OneOf(rapid.Int64Range(-178000, 178000), rapid.SampledFrom([]int64{0, -178999, 178999, 178000, -178000, 500, -500})).Draw(rt, "offset")
 	c.NumConn = rapid.SampledFrom([]int{1, 1, 2, 3, 6}).Draw(rt, "numconn")
 	c.Managed = rapid.Bool().Draw(rt, "managed")
+	c.Others = rapid.SampledFrom([]int{0, 0, 1, 3, 6}).Draw(rt, "others")
 	return c
 }
 
